@@ -14,7 +14,7 @@ from .c18 import CountingSequence
 
 RULE = (
     "all histories of the bound length (invariants after every step) over the actions {attach_payload(node, P1|P2) for every node kind (leaf, "
-    "unary operation relation, chain relation, materialization, transfer), iteration execute(T_i), "
+    "unary operation relation, chain relation, materialization, transfer, the SQL engine's Select wrapper), iteration execute(T_i), "
     "Processor.process(T_i)} on four trees T_1..T_4 (the materialization, a projection, a self-chain and a sort of it) that share one materialization node, in several scenarios "
     "(iteration-only; SQL source transferred into the iteration engine below the materialization; materialization "
     "inside the SQL engine below a transfer; SQL materialization directly above a transfer from the iteration engine; "
@@ -139,6 +139,12 @@ class Scenario:
         }
         if self.transfer is not None:
             self.nodes["transfer"] = next(n for n in walk.walk(self.transfer) if isinstance(n, Transfer))
+        # the SQL engine wraps what its factories return in a Select marker, documented never to hold a payload
+        # ("TypeError ... if this marker subclass can never have a payload"): the relation a caller actually
+        # holds after .materialized() / .transferred_to(sql) is that wrapper
+        wrapper = next((n for n in walk.walk(self.m) if isinstance(n, sql.Select)), None)
+        if wrapper is not None:
+            self.nodes["select"] = wrapper
         self.hook_log = []
         self.p = {}
 
@@ -197,7 +203,7 @@ def run_history(scn_name, hist):
             except Exception as e:  # noqa: BLE001
                 problems.append(("attach-wrong-exception", f"step {step}: attach to {x} raised {type(e).__name__}"))
                 ok = False
-            is_marker = isinstance(node, MarkerRelation)
+            is_marker = isinstance(node, MarkerRelation) and not isinstance(node, sql.Select)
             if ok and not (is_marker and before is None):
                 problems.append(("attach-accepted", f"step {step}: attach_payload succeeded on {x} (marker={is_marker}, had payload={before is not None})"))
             if not ok and is_marker and before is None:
